@@ -91,16 +91,17 @@ def run(ctx):
     if not q:
         ap = os.path.join(SPEC, "apalache")
         obligations = 0
-        for args in (["--init=Init", "--length=0"], ["--init=IndInit", "--length=1"]):
-            rc, out = vlib.sh(["apalache-mc", "check", "--cinit=ConstInit", "--inv=IndInv"] + args + ["PDataInt.tla"],
-                              cwd=ap, timeout=1800)
-            import shutil
-            shutil.rmtree(os.path.join(ap, "_apalache-out"), ignore_errors=True)
-            if "EXITCODE: OK" not in out:
-                raise vlib.ToolError("Apalache did not discharge the inductive invariant of PDataInt (%s):\n%s" % (args, out[-1500:]))
-            obligations += 1
+        import shutil
+        for module in ("PDataInt.tla", "PDataAsyncInt.tla"):
+            for args in (["--init=Init", "--length=0"], ["--init=IndInit", "--length=1"]):
+                rc, out = vlib.sh(["apalache-mc", "check", "--cinit=ConstInit", "--inv=IndInv"] + args + [module],
+                                  cwd=ap, timeout=1800)
+                shutil.rmtree(os.path.join(ap, "_apalache-out"), ignore_errors=True)
+                if "EXITCODE: OK" not in out:
+                    raise vlib.ToolError("Apalache did not discharge the inductive invariant of %s (%s):\n%s" % (module, args, out[-1500:]))
+                obligations += 1
         ctx.extra_cov["apalache_inductive_invariant"] = {
-            "module": "specs/ps38/apalache/PDataInt.tla", "invariant": "IndInv", "obligations_discharged": obligations,
+            "modules": ["specs/ps38/apalache/PDataInt.tla (sync writer)", "specs/ps38/apalache/PDataAsyncInt.tla (async writer, every transport schedule)"], "invariant": "IndInv", "obligations_discharged": obligations,
             "meaning": "Init => IndInv and IndInv /\\ Next => IndInv' for all Max >= 7 and all chunk sizes in Nat: conservation, "
                        "PDU-length bound, only-last flag, non-zero write results hold at every maximum PDU length"}
 
